@@ -69,7 +69,7 @@ theorem hht_dense_eq_spec (e : List Rat) (he : e.Pairwise (· ≤ ·)) (energy :
   exact sumIf_hhtCoo e he energy F A b t
 
 /-- Every sparse entry lies inside the `[bins × time]` shape (so `coo_matrix` accepts all of them and
-    none is lost), and there is exactly one entry per in-range sample. -/
+    none is lost). -/
 theorem hht_sparse_in_shape (e : List Rat) (energy : Bool) (F : List (List Freq)) (A : List (List Rat)) :
     ∀ x ∈ hhtCoo e energy F A, x.row < e.length - 1 ∧ x.col < F.length := by
   intro x hx
@@ -79,6 +79,14 @@ theorem hht_sparse_in_shape (e : List Rat) (energy : Bool) (F : List (List Freq)
   have hi := (List.getElem?_eq_some_iff.mp h1).1
   simp at hi this
   omega
+
+/-- The sparse form holds exactly one entry per in-range sample (and none for the others). -/
+theorem hht_sparse_one_per_sample (e : List Rat) (he : e.Pairwise (· ≤ ·)) (energy : Bool)
+    (F : List (List Freq)) (A : List (List Rat)) :
+    (hhtCoo e energy F A).length =
+      ((List.zip F A).map fun r => (List.zip r.1 r.2).countP fun fa => inRange e fa.1).sum := by
+  unfold hhtCoo
+  exact length_cooFrom _ _ (fun t r => length_hhtRowTrips e he energy t r) 0 _
 
 /-- Sparse form vs dense form: the dense matrix is the table whose cell `(b, t)` is the sum of the sparse
     entries at `(b, t)` (duplicates accumulate), and the total of the dense matrix equals the total of the
